@@ -261,9 +261,12 @@ class TracedFrame:
     uses (``len``, slicing, ``[column].to_numpy()``) and logging every slice
     request together with the simulated process that issued it."""
 
-    def __init__(self, df, trace: list) -> None:
+    def __init__(self, df, trace: list, fail_at: int | None = None) -> None:
         self._df = df
         self._trace = trace
+        self._fail_at = fail_at  # the k-th slice request fails once with MemoryError (failing allocation)
+        self._nslices = 0
+        self.failed = 0
 
     def __len__(self) -> int:
         return len(self._df)
@@ -274,6 +277,11 @@ class TracedFrame:
         t = current_task()
         who = t.name if t is not None else "-"
         if isinstance(item, slice):
+            self._nslices += 1
+            if self._fail_at is not None and self._nslices == self._fail_at:
+                self.failed += 1
+                self._trace.append((who, "failed", item.start, item.stop))
+                raise MemoryError(f"simulated allocation failure reading records {item.start}:{item.stop}")
             self._trace.append((who, item.start, item.stop, item.step))
             return self._df[item]
         self._trace.append((who, "column", str(item), None))
@@ -328,6 +336,13 @@ def make_config(spec: dict):
     """spec: dict(rmin, rmax, unit, rweight, resolution, edges, closed)"""
     import yaw
 
+    if spec.get("method"):
+        # generated binning: edges are computed by the library from (zmin, zmax, num_bins, method)
+        return yaw.Configuration.create(
+            rmin=spec["rmin"], rmax=spec["rmax"], unit=spec.get("unit", "deg"), rweight=spec.get("rweight"),
+            resolution=spec.get("resolution"), zmin=spec["edges"][0], zmax=spec["edges"][-1],
+            num_bins=len(spec["edges"]) - 1, method=spec["method"], closed=spec.get("closed", "right"),
+        )
     return yaw.Configuration.create(
         rmin=spec["rmin"],
         rmax=spec["rmax"],
